@@ -529,6 +529,7 @@ def run(ctx):
     n_restart = 0
     prev_side, noise_ids = None, set()
     n_side = 0
+    versions = {}          # (subject, id) -> every accepted presentation with that key, in order (id reuse)
     handed_out = {}        # (subject, id) -> description of a presentation a defective server handed out (pollinject)
     n_forged = Counter()
     inflight, interleaved = 0, False   # responses of overlapping polls in flight; a poll STARTED while another response was in flight
@@ -547,6 +548,18 @@ def run(ctx):
         else:
             oracle_fail[sig] += 1
 
+    def best_version(key):
+        """the description of the presentation behind a replica row: among the accepted presentations with this key (or what a
+        defective server handed out) the one the client's own verification can have accepted, if there is one"""
+        vs = versions.get(key) or ([handed_out[key]] if key in handed_out else [])
+        for v in reversed(vs):
+            if v.get("verifyC") and not client_cannot_verify(v, d):
+                return v
+        for v in reversed(vs):
+            if v.get("verifyC"):
+                return v
+        return vs[-1] if vs else {}
+
     for i, line in enumerate(impl):
         op = ops[i] if i < len(ops) else {}
         kind = op.get("op")
@@ -555,7 +568,7 @@ def run(ctx):
             epoch_max, accepted, sub_hist, resets, wipes = 0, {}, {}, 0, 0
             prev_side, noise_ids = None, set()
             inflight, interleaved = 0, False
-            handed_out = {}
+            handed_out, versions = {}, {}
             continue
         if kind == "get":
             classes["get"] += 1
@@ -617,6 +630,9 @@ def run(ctx):
                     report("C16:listed-row-mismatch", "the accepted presentation is not the row with the new timestamp", i)
                 epoch_max = max(epoch_max, S["ts"])
                 accepted[(vp["signer"][0], vp.get("id"))] = (i, vp)
+                # a signer may REUSE an id for another presentation (the entry in between was replaced): the replica skips an
+                # entry whose (signer, id) it holds, so it may hold ANY of the versions — the lines do not say which
+                versions.setdefault((vp["signer"][0], vp.get("id")), []).append(vp)
                 sub_hist.setdefault(vp["signer"][0], []).append((vp["exp"], vp.get("id")))
             else:
                 if S != pS:
@@ -663,7 +679,7 @@ def run(ctx):
                 for x in res:
                     s_, pid = x.rsplit(":", 1)
                     r = ckeys.get((s_, pid))
-                    vpd = accepted.get((s_, pid), (None, {}))[1]
+                    vpd = best_version((s_, pid))
                     if r is None or s_ != sub or not r["validated"] or r["exp"] <= now - t0 - 2 or not vpd.get("verifyC"):
                         report("C16:search-with-query-unsound", f"client search for subject {sub} returned {x}", i)
             prev_side = sd
@@ -678,7 +694,7 @@ def run(ctx):
             n_forged[op.get("class", "?")] += 1
         for (sub, pid) in st["Q"]:
             r = ckeys.get((sub, pid))
-            vpd = accepted.get((sub, pid), (None, handed_out.get((sub, pid), {})))[1]
+            vpd = best_version((sub, pid))
             if r is None or not r["validated"] or r["exp"] <= now - t0 - 2 or not vpd.get("verifyC"):
                 report("C16:search-unsound", f"client search returned {sub}:{pid} which is not a validated unexpired entry it verified", i)
             else:
@@ -687,7 +703,7 @@ def run(ctx):
                     report("C16:search-unsound:" + re.sub(r"[^a-z]+", "-", why[0].lower()),
                            f"client search returned {sub}:{pid} which the client's own verification cannot have accepted: " + "; ".join(why), i)
         for r in C["rows"]:
-            vpd = accepted.get((r["subject"], r["id"]), (None, handed_out.get((r["subject"], r["id"]), {})))[1]
+            vpd = best_version((r["subject"], r["id"]))
             if r["validated"] and not vpd.get("verifyC"):
                 report("C16:validated-without-verification", "client row is validated although the client's verifier rejects it", i)
             elif r["validated"]:
@@ -732,8 +748,12 @@ def run(ctx):
                 sig = "C16:replica-keeps-entry-superseded-by-shorter-lived-one" if explained else "C16:replica-holds-unlisted-entry"
                 report(sig, f"after quiescent polls the client still holds live entries the server does not list {sorted(stale)}", i)
             def keep(c):   # expired rows may be pruned by any add (also one for another list): not part of idempotence
-                return (c["seed"], c["ts"], [r for r in c["rows"] if r["exp"] > rel + 2])
-            if op.get("quiet", 0) >= 3 and prev and keep(C) != keep(prev["C"]):
+                return (c["seed"], [r for r in c["rows"] if r["exp"] > rel + 2])
+            # the replica's timestamp is only written when an entry is stored: after a response that carried an older
+            # service timestamp than its rows (registration between the two reads of get) it lags until an EXPIRED, pruned
+            # entry is fetched again — it may catch up with the server's, never pass it or go back
+            ts_ok = prev is None or (prev["C"]["ts"] <= C["ts"] <= max(S["ts"], prev["C"]["ts"]))
+            if op.get("quiet", 0) >= 3 and prev and (keep(C) != keep(prev["C"]) or not ts_ok):
                 report("C16:quiescent-poll-not-idempotent", "a third quiescent poll changed the replica", i)
         prev = st
     n_or = sum(oracle_fail.values())
